@@ -868,7 +868,7 @@ func init() {
 		},
 		Real:        append([]string{"internal/martian tunnel(), bicopy, copier, drainBuffer, asCloseWriter (copy.go, close.go)", "dialvia HTTP/HTTPS/SOCKS5 dialers", "golang.org/x/net/proxy SOCKS5 client"}, realForwarder...),
 		Stub:        stubCommon,
-		Rule:        "cases drawn from the tape: route x link capacity (2 KiB..4 MiB) x per-endpoint write scripts (sizes around 4 KiB/32 KiB, up to ~1 MiB) x coalescing of head/reply with payload x half-close order x 1-3 concurrent tunnels x optional RST fault x optional quiet period of 20 s .. 2 h in the middle of a healthy tunnel (with and without HTTPProxyConfig.ReadTimeout); schedule = seeded segmentation and interleaving of all links. Non-trivial = payload bytes flowed and no setup failure.",
+		Rule:        "cases drawn from the tape: route x link capacity (2 KiB..4 MiB) x per-endpoint write scripts (sizes around 4 KiB/32 KiB, up to ~1 MiB) x coalescing of head/reply with payload x half-close order x 1-3 concurrent tunnels x optional RST fault x optional quiet period of 20 s .. 2 h in the middle of a healthy tunnel (with and without HTTPProxyConfig.ReadTimeout); schedule = seeded segmentation and interleaving of all links. Non-trivial = payload bytes flowed and no setup failure. Routes include a CONNECT whose target-side TLS the proxy terminates; CONNECT and upgrade requests may carry Connection options; tunnels may stay quiet for up to two hours.",
 		Assumptions: []string{"quiet periods (20 s .. 2 h of simulated time) are placed only while both directions are still open: the endpoint that is not pausing keeps its direction open until it has seen the pauser's FIN, so the documented 1-minute grace period after the first direction ends never cuts a still-flowing direction"},
 	})
 }
